@@ -246,8 +246,10 @@ pub fn plan(tier: &str) -> Plan {
     }
     // crash-point enumeration: drop A's task before its k-th poll, for every k up to the number
     // of polls of the default schedule (measured here by one probing execution)
-    for (kind, prog) in [(Kind::Send, P::Awaits), (Kind::Send, P::SleepsMs)] {
-        let sc0 = base(kind, Variant::Linked, Site::Handle, prog, Closer::Abort(0));
+    // (site PostStop: the scenario's final stop runs a post_stop with suspension points, so the later cuts land
+    // inside post_stop, after the actor published Stopping)
+    for (kind, site, prog) in [(Kind::Send, Site::Handle, P::Awaits), (Kind::Send, Site::Handle, P::SleepsMs), (Kind::Send, Site::PostStop, P::Awaits), (Kind::Send, Site::PostStop, P::SleepsMs), (Kind::Local, Site::PostStop, P::Awaits)] {
+        let sc0 = base(kind, Variant::Linked, site, prog, Closer::Abort(0));
         let probe = vsched::run_one(&cfg, &body(sc0.clone(), |_| vec![]), &[]);
         let polls = probe.polls.iter().filter(|p| p.0.as_deref() == Some("A")).map(|p| p.1).max().unwrap_or(0);
         for k in 1..=polls {
